@@ -23,15 +23,12 @@ Definition limit {A} (n : nat) (l : list A) : list A := skipn (length l - n) l.
 
 Inductive sres := SOk (ms : list mrec) | SCrash (why : crash) | SFuel.
 
-Section Scan.
-Variable vm_fuel : nat.
-Variable prog : list instr.
+(* The scan loop, for an arbitrary attempt function (one engine run started at a given offset,
+   line and column). *)
+Section ScanLoop.
+Variable attempt : nat -> nat -> nat -> outcome.
 Variable text : bytes.
 Variables (all : bool) (skip take last : nat).
-
-(* one attempt: the engine started at [off] *)
-Definition attempt (off ln cl : nat) : outcome :=
-  run prog text vm_fuel (Running (init_core off ln cl) []).
 
 (* a failed (or empty) attempt: advance one byte, keeping line/column in step *)
 Definition fail_step (off ln cl : nat) : option (nat * nat * nat) :=
@@ -83,9 +80,21 @@ Fixpoint scan (fuel : nat) (off ln cl : nat) (num : nat) (acc : list mrec) : sre
       else SOk acc
   end.
 
+End ScanLoop.
+
+Section Scan.
+Variable vm_fuel : nat.
+Variable prog : list instr.
+Variable text : bytes.
+Variables (all : bool) (skip take last : nat).
+
+(* one attempt: the engine started at [off] *)
+Definition attempt (off ln cl : nat) : outcome :=
+  run prog text vm_fuel (Running (init_core off ln cl) []).
+
 Definition find_matches : sres :=
   if Nat.eqb (length text) 0 then SOk []
   else if Nat.eqb (length prog) 0 then SOk []
-  else scan (S (length text)) 0 1 1 0 [].
+  else scan attempt text all skip take last (S (length text)) 0 1 1 0 [].
 
 End Scan.
